@@ -323,6 +323,25 @@ func c08History(r *verifkit.R, phase string, ci int, rng *verifkit.Rand) {
 		snap = rig.cidr.Snap()
 		r.Add("mutations", 1)
 		r.Add("op_"+op.Op, 1)
+		if op.Op == "disconnect" {
+			// whatever the table did internally: after P is gone no stored route may still point
+			// at P, otherwise lookups keep handing out a dead next hop instead of the fallback
+			for i := range snap {
+				if snap[i].NextHop != op.Peer {
+					continue
+				}
+				e := &snap[i]
+				class := "plain"
+				if c8Canon(e.Net).Mapped {
+					class = "v4mapped"
+				}
+				got := rig.cidr.t.Lookup(e.Net.IP)
+				r.Violation(class+":route-via-disconnected-peer-still-stored", phase, ci,
+					fmt.Sprintf("after disconnect of %s the table still stores %s; Lookup(%s) = %v", w.name(op.Peer), e.show(w), e.Net.IP, got),
+					map[string]any{"history": steps, "stored": c8ShowAll(w, snap)})
+			}
+			r.Add("disconnects_checked_for_leftovers", 1)
+		}
 		if op.Op == "cleanup" && c8PartialCleanup(w, before, snap) {
 			r.Add("partial_stale_cleanups", 1)
 			partial = true
@@ -360,6 +379,9 @@ func TestVerif_C08_Conc(t *testing.T) {
 		"non-trivial = round in which >=1 concurrent lookup returned a churn prefix and >=1 a stable one")
 	rounds := r.N(20, 300)
 	r.Cases("conc", rounds, func(ci int, rng *verifkit.Rand) { c08ConcRound(r, "conc", ci, rng) })
+	c8LostUpdatePhase(r, "lostupd", []string{c8Cidr}, r.N(300, 3000))
+	r.Require("lostupd_stale_routes_removed", int64(r.N(600, 6000)))
+	r.Require("lostupd_final_submissions_checked", int64(r.N(600, 6000)))
 	r.Require("conc_lookups", 10000)
 	r.Require("conc_lookups_stable_answer", 1000)
 	r.Require("conc_lookups_churn_answer", 100)
